@@ -244,3 +244,6 @@ for _cas in (False, True):
 
 from contracts import lemmas as _L  # noqa: E402
 register(Unit(P, "LEMMA/ONE-INIT", _L.h_one_init, functions=[], replay=_replay_create, uses=_L.ONE_INIT_USES))
+
+from contracts import helpers as _HLP  # noqa: E402
+_HLP.register_under("C18", ["HELPER/metadata-file-io"])
